@@ -13,22 +13,37 @@ from ..core import cell
 PROPERTY = "C11"
 RULE = (
     "cases = (count tensor N 2..3 (4 thorough) with a drawn zero pattern: mixed / empty slice / zero fibres / one "
-    "nonzero, dense or sparse holder with generated stored order; rank 1..3; non-negative guess with zero entries, "
-    "all-zero rows, unit or positive weights; algorithm options; maxiters k in 1..5) drawn by Hypothesis; the "
-    "algorithm is run with limits k and k+1 from copies of the same guess.  Oracle: returned ktensor has the "
-    "requested rank/shape and no negative weight or entry; obj = sum_{x>0} x log m - sum m recomputed from the "
-    "einsum of the returned weights and factors; kktViolations >= 0, same length as the other per-iteration outputs, "
-    "<= maxiters, and exactly k for the k-run when the (k+1)-run used all k+1 iterations; obj >= log-likelihood of "
-    "the guess; data and guess unchanged.  Non-trivial: data has a zero and a count >= 2, rank >= 2."
+    "nonzero; counts of order 1, 1e3 or 1e6; held as float64 or in an integer dtype (int64/int32/uint8/uint16/uint64); "
+    "dense or sparse holder in a drawn provenance state reached through the public API - constructor (F or C ordered "
+    "input), grown by assignment, permuted, converted from the other holder, sparse with generated stored order, "
+    "NumPy-integer shape, explicitly stored zeros; rank 1..4; non-negative guess with zero entries / all-zero rows / "
+    "unit or positive weights / scale 1e-3..1e3, fresh or after copy/normalize/arrange/redistribute/permute, or "
+    "init='random' under a seed; every documented option over its range incl. printing; maxiters k) drawn by "
+    "Hypothesis; the algorithm is run with limits k and k+1 on the SAME data and guess objects.  Oracle: returned "
+    "ktensor has the requested rank/shape and no negative weight or entry; obj = sum_{x>0} x log m - sum m recomputed "
+    "from the einsum of the returned weights and factors; kktViolations >= 0, same length as the other per-iteration "
+    "outputs, <= maxiters, and exactly k for the k-run when the (k+1)-run used all k+1 iterations; obj >= "
+    "log-likelihood of the guess; data (values and dtype) and guess unchanged; integer-typed data gives the same model "
+    "and objective as its float64 image with the same layout.  state cell: sequences of 2..3 calls (repeat / other "
+    "printing options / another call or the mirrored data in between / defaults around explicit options) - the "
+    "repeated call reproduces the first bit for bit.  Non-trivial: data has a zero and a count >= 2, rank >= 2."
 )
 ASSUMPTIONS = [
     "objective compared within 1e-9 x (sum |x log m| + sum m) (+ exact match for -inf); pyttb evaluates sum m "
     "from the L1-normalised factors, i.e. with a different summation order",
     "'at least as likely as the guess': obj >= loglik(guess) - 1e-9 x scale; a guess of likelihood -inf is trivially met; "
     "for pdnr/pqnr and a guess with all-zero rows the baseline is the documented perturbed guess (1e-8 in the first "
-    "column of those rows) when that is less likely",
-    "maxiters >= 1, printitn = 0; stoptime left at its default (no wall-clock influence)",
+    "column of those rows) when that is less likely; the guess is read back from the object handed in (init='random': "
+    "from the returned guess)",
+    "maxiters >= 1; stoptime only at values far beyond any run time (no wall-clock influence); epsDivZero in "
+    "[1e-16, 1e-3] (1e-300 makes x/eps overflow: not an admissible safeguard)",
     "data has at least one positive count; N >= 2 (tt_loglikelihood unfolds along mode 1)",
+    "float32 data is left out: pyttb computes in the data's precision where a float32 array meets a Python scalar, so "
+    "the 1e-9 objective tolerance would not be justified",
+    "a dense tensor grown by assignment and a sparse tensor grown by assignment hold float64 values whatever they "
+    "started from (pyttb converts), so integer dtypes are combined with the other provenance states only",
+    "model-independent-of-data-dtype: 1e-9 relative per factor matrix; the float64 image is built by the same route "
+    "and compared only when its stored layout is identical (same operations in the same order)",
 ]
 
 EPS = np.finfo(float).eps
@@ -39,6 +54,14 @@ EPS = np.finfo(float).eps
 # --------------------------------------------------------------------------
 
 COUNT = st.sampled_from([1.0, 1.0, 1.0, 2.0, 2.0, 3.0, 5.0, 9.0])
+
+# count data is naturally held in an integer dtype; float32 is left out (pyttb computes in the data's precision where a
+# float32 array meets a Python scalar, so the 1e-9 objective tolerance would not be justified)
+DTYPES = ["float64", "float64", "float64", "int64", "int64", "int32", "uint8", "uint16", "uint64"]
+DTYPE_MAX = {"uint8": 255, "uint16": 65535, "int32": 2**31 - 1}
+DENSE_PROV = ["ctor", "ctor", "ctor-c-order", "grown", "permuted", "from-sparse"]
+SPARSE_PROV = ["ctor", "ctor", "np-shape", "explicit-zeros", "explicit-zeros", "grown", "grown", "from-dense", "permuted"]
+GUESS_PROV = ["ctor", "ctor", "ctor", "copy", "normalized", "absorbed", "arranged", "permuted", "redistributed"]
 
 
 @st.composite
@@ -69,14 +92,25 @@ def _apr_case(draw, tier, alg, holder):
             A[tuple(idx)] = 0.0
     if not A.any():
         A.flat[draw(st.integers(0, n - 1))] = draw(COUNT)
-    rank = draw(st.sampled_from([1, 2, 2, 3, 3]))
-    gclass = draw(st.sampled_from(["positive", "positive", "some-zeros", "zero-row"]))
+    # data magnitude: counts of order 1, 1e3 or 1e6 (still integers), as far as the drawn dtype can hold them
+    dtype = draw(st.sampled_from(DTYPES))
+    dscale = draw(st.sampled_from([1, 1, 1, 1, 25, 1000, 10**6]))
+    if 9 * dscale > DTYPE_MAX.get(dtype, 2**62):
+        dscale = 25 if dtype == "uint8" else 1000
+    A = A * dscale
+    dprov = draw(st.sampled_from(DENSE_PROV if holder == "dense" else SPARSE_PROV))
+    rank = draw(st.sampled_from([1, 2, 2, 3, 3, 4]))
+    gclass = draw(st.sampled_from(["positive", "positive", "some-zeros", "zero-row", "random"]))
     pv = st.one_of(st.sampled_from([0.5, 1.0]), st.floats(0.05, 2.0), st.floats(0.05, 2.0))
     fv = pv if gclass != "some-zeros" else st.one_of(st.just(0.0), pv, pv, pv, pv, pv)
     factors = [draw(st.lists(st.lists(fv, min_size=rank, max_size=rank), min_size=s, max_size=s)) for s in shape]
     if gclass == "zero-row":  # an all-zero row in one factor
         k = draw(st.integers(0, N - 1))
         factors[k][draw(st.integers(0, shape[k] - 1))] = [0.0] * rank
+    # guess magnitude: the scale of a starting guess is arbitrary
+    gscale = draw(st.sampled_from([1.0, 1.0, 1.0, 1.0, 1e-3, 1e3]))
+    if gscale != 1.0:
+        factors = [[[v * gscale for v in row] for row in f] for f in factors]
     wk = draw(st.sampled_from(["unit", "unit", "positive"]))
     weights = [1.0] * rank if wk == "unit" else draw(st.lists(st.floats(0.1, 5.0), min_size=rank, max_size=rank))
     sc = gen.sparse_case_from_dense(A)
@@ -88,40 +122,178 @@ def _apr_case(draw, tier, alg, holder):
         perm = list(draw(st.permutations(perm)))
     c = dict(alg=alg, holder=holder, shape=list(shape), pattern=pattern,
              subs=[sc["subs"][i] for i in perm], vals=[sc["vals"][i] for i in perm], stored=order,
-             rank=rank, factors=factors, weights=weights, wkind=wk, gclass=gclass,
-             maxiters=draw(st.sampled_from([1, 2, 2, 3, 3, 4, 5])),
-             maxinneriters=draw(st.sampled_from([1, 2, 2, 3, 5, 10, 10])),
-             stoptol=draw(st.sampled_from([1e-4, 1e-4, 1e-2, 1e-8, 0.3])),
-             epsDivZero=draw(st.sampled_from([1e-10, 1e-10, 1e-3])))
-    if alg == "mu":
-        c["kappa"] = draw(st.sampled_from([0.01, 0.01, 0.1, 1e-3]))
-        c["kappatol"] = draw(st.sampled_from([1e-10, 1e-10, 1e-3]))
-    else:
-        c["epsActive"] = draw(st.sampled_from([1e-8, 1e-8, 1e-3]))
-        c["precompinds"] = draw(st.booleans())
-        if alg == "pdnr":
-            c["mu0"] = draw(st.sampled_from([1e-5, 1e-5, 1e-2, 1.0]))
-            c["inexact"] = draw(st.booleans())
-        else:
-            c["lbfgsMem"] = draw(st.sampled_from([1, 1, 1, 2, 3, 5]))
+             dtype=dtype, dscale=dscale, dprov=dprov, mperm=list(draw(st.permutations(range(N)))),
+             rank=rank, factors=factors, weights=weights, wkind=wk, gclass=gclass, gscale=gscale,
+             gprov="random" if gclass == "random" else draw(st.sampled_from(GUESS_PROV)),
+             np_seed=draw(st.integers(0, 2**31 - 1)))
+    if holder == "sparse" and dprov == "explicit-zeros":
+        zeros = [list(s) for s in ref.all_subs_F(shape) if A[s] == 0]
+        zsel = draw(st.lists(st.booleans(), min_size=len(zeros), max_size=len(zeros)))
+        c["zsubs"] = [z for z, b in zip(zeros, zsel) if b] or zeros[:1]
+    c.update(_option_draw(draw, alg))
     return c
 
 
-def _options(case):
-    keys = ["maxinneriters", "stoptol", "epsDivZero", "kappa", "kappatol", "epsActive", "precompinds", "mu0", "inexact",
-            "lbfgsMem"]
-    return {k: case[k] for k in keys if k in case}
-
-
-def _build(case):
-    shape = tuple(case["shape"])
-    A = gen.dense_of_sparse_case(case)
-    if case["holder"] == "dense":
-        data = ttb.tensor(A.copy(order="F"), shape)
+def _option_draw(draw, alg, wide=True):
+    """every documented cp_apr option over its admissible range (stoptime stays far away: no wall-clock influence)"""
+    c = dict(maxiters=draw(st.sampled_from([1, 2, 2, 3, 3, 4, 5, 8])),
+             maxinneriters=draw(st.sampled_from([1, 2, 2, 3, 5, 10, 10, 25])),
+             stoptol=draw(st.sampled_from([1e-4, 1e-4, 1e-2, 1e-8, 0.3, 0.0, 1e-14, 5.0])),
+             epsDivZero=draw(st.sampled_from([1e-10, 1e-10, 1e-3, 1e-16])),
+             stoptime=draw(st.sampled_from([None, None, 1e6, 1e12, float("inf")])),
+             printitn=draw(st.sampled_from([0, 0, 0, 1, 2, 3])),
+             printinneritn=draw(st.sampled_from([0, 0, 1, 2])))
+    if alg == "mu":
+        c["kappa"] = draw(st.sampled_from([0.01, 0.01, 0.1, 1e-3, 1e-10, 1.0]))
+        c["kappatol"] = draw(st.sampled_from([1e-10, 1e-10, 1e-3, 1e-16, 0.1]))
     else:
-        data = gen.build_sptensor(case)
+        c["epsActive"] = draw(st.sampled_from([1e-8, 1e-8, 1e-3, 1e-14, 0.1]))
+        c["precompinds"] = draw(st.booleans())
+        if alg == "pdnr":
+            c["mu0"] = draw(st.sampled_from([1e-5, 1e-5, 1e-2, 1.0, 1e-12, 1e3]))
+            c["inexact"] = draw(st.booleans())
+        else:
+            c["lbfgsMem"] = draw(st.sampled_from([1, 1, 1, 2, 3, 5, 10]))
+    return c
+
+
+OPTION_KEYS = ["maxinneriters", "stoptol", "epsDivZero", "kappa", "kappatol", "epsActive", "precompinds", "mu0", "inexact",
+               "lbfgsMem", "stoptime", "printitn", "printinneritn"]
+
+
+def _options(case):
+    out = {k: case[k] for k in OPTION_KEYS if case.get(k) is not None}
+    out.setdefault("printitn", 0)
+    return out
+
+
+# --------------------------------------------------------------------------
+# operands in the states public operations leave them in
+# --------------------------------------------------------------------------
+
+
+def _true_array(case):
+    return gen.dense_of_sparse_case(case)
+
+
+def _stored_entries(case, dtype):
+    shape = tuple(case["shape"])
+    n = len(case["subs"])
+    subs = np.array(case["subs"], dtype=int).reshape(n, len(shape))
+    vals = np.array(case["vals"], dtype=float).astype(dtype).reshape(n, 1)
+    return subs, vals
+
+
+def _sp_ctor(case, dtype, shape=None):
+    shape = tuple(case["shape"]) if shape is None else shape
+    subs, vals = _stored_entries(case, dtype)
+    if len(subs) == 0:
+        return ttb.sptensor(shape=shape)
+    return ttb.sptensor(subs, vals, shape)
+
+
+def _build_data(case, dtype=None):
+    """(data object, provenance actually used).  Every state is reached through the public API only; when a route does
+    not lead to the wanted tensor (those routes are judged by other properties) the constructor is used instead."""
+    dtype = np.dtype(dtype or case.get("dtype", "float64"))
+    shape = tuple(case["shape"])
+    N = len(shape)
+    A = _true_array(case)
+    prov = case.get("dprov", "ctor")
+    data = None
+    try:
+        if case["holder"] == "dense":
+            Ad = A.astype(dtype)
+            if prov == "ctor-c-order":
+                data = ttb.tensor(np.ascontiguousarray(Ad))
+            elif prov == "grown":
+                if dtype == np.float64:  # (growing an integer tensor turns it into a float tensor)
+                    data = gen.build_tensor(dict(shape=list(shape), data=[float(v) for v in A.flatten(order="F")], prov="grown"))
+            elif prov == "permuted":
+                p = list(case["mperm"])
+                data = ttb.tensor(np.transpose(Ad, p).copy(order="F")).permute(np.argsort(p))
+            elif prov == "from-sparse":
+                data = _sp_ctor(case, dtype).to_tensor()
+        else:
+            subs, vals = _stored_entries(case, dtype)
+            if prov == "np-shape":  # shape computed with NumPy, as in sptensor(subs, vals, tuple(subs.max(0) + 1))
+                data = _sp_ctor(case, dtype, tuple(np.array(shape, dtype=np.int64)))
+            elif prov == "explicit-zeros":
+                z = np.array(case["zsubs"], dtype=int).reshape(-1, N)
+                allsubs = np.vstack((subs, z))
+                allvals = np.vstack((vals, np.zeros((len(z), 1), dtype=dtype)))
+                p = np.random.RandomState(case["np_seed"] % (2**31)).permutation(len(allsubs))
+                data = ttb.sptensor(allsubs[p], allvals[p], shape)
+            elif prov == "grown":
+                # entries outside the first corner block are assigned one by one: the tensor grows in place
+                cand = [m for m in range(N) if shape[m] >= 2 and np.any(subs[:, m] == shape[m] - 1)]
+                if cand:
+                    m = cand[case["np_seed"] % len(cand)]
+                    small = list(shape)
+                    small[m] -= 1
+                    inside = subs[:, m] < shape[m] - 1
+                    if inside.any():
+                        data = ttb.sptensor(subs[inside], vals[inside], tuple(small))
+                    else:
+                        data = ttb.sptensor(shape=tuple(small))
+                    for s, v in zip(subs[~inside], vals[~inside]):
+                        data[tuple(int(i) for i in s)] = v[0].item()  # (a grown sptensor ends up with float64 values)
+            elif prov == "from-dense":
+                data = ttb.tensor(A.astype(dtype)).to_sptensor()
+            elif prov == "permuted":
+                p = list(case["mperm"])
+                if len(subs):
+                    data = ttb.sptensor(subs[:, p], vals, tuple(shape[i] for i in p)).permute(np.argsort(p))
+    except Exception:  # noqa: BLE001  (the route itself is not the subject here)
+        data = None
+    if data is not None:
+        ok = tuple(int(x) for x in data.shape) == shape and np.array_equal(ref.den(data), A)
+        if not ok:
+            data = None
+    if data is None:
+        used = "ctor" if prov == "ctor" else "ctor(fallback-from-" + prov + ")"
+        data = ttb.tensor(A.astype(dtype).copy(order="F"), shape) if case["holder"] == "dense" else _sp_ctor(case, dtype)
+    else:
+        used = prov
+    return data, used
+
+
+def _holder_dtype(data):
+    return str((data.vals if isinstance(data, ttb.sptensor) else data.data).dtype)
+
+
+def _build_guess(case):
+    """starting guess: a ktensor fresh from the constructor or in the state an earlier public operation left it in
+    (all of them keep entries and weights non-negative); 'random' lets cp_apr draw it"""
+    if case.get("gprov") == "random":
+        return "random"
+    shape = tuple(case["shape"])
     fm = [np.array(f, dtype=float).reshape(s, case["rank"]) for f, s in zip(case["factors"], shape)]
-    return A, data, fm, np.array(case["weights"], dtype=float)
+    w = np.array(case["weights"], dtype=float)
+    prov = case.get("gprov", "ctor")
+    K = ttb.ktensor([f.copy() for f in fm], w.copy())
+    try:
+        if prov == "copy":
+            K = K.copy()
+        elif prov == "normalized":
+            K.normalize(normtype=1)
+        elif prov == "absorbed":
+            K.normalize(weight_factor=case["np_seed"] % len(shape))
+        elif prov == "arranged":
+            K.arrange()
+        elif prov == "redistributed":
+            K.redistribute(case["np_seed"] % len(shape))
+        elif prov == "permuted":
+            p = list(case["mperm"])
+            K = ttb.ktensor([fm[i].copy() for i in p], w.copy()).permute(np.argsort(p))
+    except Exception:  # noqa: BLE001
+        K = ttb.ktensor([f.copy() for f in fm], w.copy())
+    ok = (isinstance(K, ttb.ktensor) and tuple(K.shape) == shape and K.ncomponents == case["rank"]
+          and bool(np.all(K.weights >= 0)) and all(bool(np.all(f >= 0)) for f in K.factor_matrices)
+          and all(np.all(np.isfinite(f)) for f in K.factor_matrices) and bool(np.all(np.isfinite(K.weights))))
+    if not ok:
+        K = ttb.ktensor([f.copy() for f in fm], w.copy())
+    return K
 
 
 def _loglik(A, weights, factors):
@@ -138,30 +310,43 @@ def _loglik(A, weights, factors):
 
 def _snapshot_data(data):
     if isinstance(data, ttb.sptensor):
-        return (np.array(data.subs, copy=True), np.array(data.vals, copy=True), tuple(data.shape))
-    return (np.array(data.data, copy=True), tuple(data.shape))
+        return (np.array(data.subs, copy=True), np.array(data.vals, copy=True), tuple(data.shape), str(data.vals.dtype))
+    return (np.array(data.data, copy=True), tuple(data.shape), str(data.data.dtype))
 
 
 def _same_snapshot(a, b):
     return len(a) == len(b) and all(np.array_equal(x, y) if isinstance(x, np.ndarray) else x == y for x, y in zip(a, b))
 
 
-def _run(ctx, case, A, maxiters, what):
-    _, data, fm, w = _build(case)
-    init = ttb.ktensor([f.copy() for f in fm], w.copy())
+def _snapshot_guess(init):
+    if not isinstance(init, ttb.ktensor):
+        return init
+    return (np.array(init.weights, copy=True), [np.array(f, copy=True) for f in init.factor_matrices])
+
+
+def _same_guess(a, b):
+    if isinstance(a, str) or isinstance(b, str):
+        return a == b
+    return (np.array_equal(a[0], b[0]) and len(a[1]) == len(b[1])
+            and all(x.shape == y.shape and np.array_equal(x, y) for x, y in zip(a[1], b[1])))
+
+
+def _run(ctx, case, data, init, maxiters, what, options=None, alg=None):
+    """one cp_apr call on the given (reused) data and guess objects; returns (model, guess used, info)"""
     snap = _snapshot_data(data)
+    gsnap = _snapshot_guess(init)
+    opts = _options(case) if options is None else options
+    if not isinstance(init, ttb.ktensor):
+        np.random.seed(case["np_seed"])
     with ctx.sut(what):
-        out = ttb.cp_apr(data, case["rank"], algorithm=case["alg"], init=init, maxiters=maxiters, printitn=0,
-                         **_options(case))
+        out = ttb.cp_apr(data, case["rank"], algorithm=alg or case["alg"], init=init, maxiters=maxiters, **opts)
     ctx.require(isinstance(out, tuple) and len(out) == 3, "returns-(model,guess,output)", type(out).__name__)
     M, Minit, info = out
-    ctx.require(isinstance(M, ttb.ktensor) and isinstance(info, dict), "result-types")
+    ctx.require(isinstance(M, ttb.ktensor) and isinstance(info, dict) and isinstance(Minit, ttb.ktensor), "result-types")
     # data / guess untouched
     ctx.check(_same_snapshot(_snapshot_data(data), snap), "data-unchanged")
-    guess_same = (np.array_equal(init.weights, w) and len(init.factor_matrices) == len(fm)
-                  and all(np.array_equal(a, b) for a, b in zip(init.factor_matrices, fm)))
-    ctx.check(guess_same, "guess-unchanged")
-    return M, info
+    ctx.check(_same_guess(_snapshot_guess(init), gsnap), "guess-unchanged")
+    return M, Minit, info
 
 
 def _per_iteration_lengths(info):
@@ -188,6 +373,9 @@ def _check_result(ctx, case, A, M, info, maxiters, l0, s0):
     want, scale = _loglik(A, W, F)
     if np.isinf(want) or np.isnan(want):
         ctx.label("objective-minus-inf")
+    if np.isnan(obj) and not np.isnan(want):
+        ctx.check(False, "objective-is-loglikelihood-of-returned-model[reported-nan]", f"{obj!r} vs {want!r}")
+    elif np.isinf(want) or np.isnan(want):
         ctx.check(obj == want or (np.isnan(obj) and np.isnan(want)), "objective-is-loglikelihood-of-returned-model",
                   f"{obj!r} vs {want!r}")
     else:
@@ -205,18 +393,11 @@ def _check_result(ctx, case, A, M, info, maxiters, l0, s0):
     return len(kkt)
 
 
-def _body(ctx, case):
-    A, _, fm, w = _build(case)
-    k = case["maxiters"]
+def _guess_baseline(case, A, Minit):
+    """log-likelihood of the guess actually used (read back from the object handed in / returned), and its scale"""
+    w = np.asarray(Minit.weights, dtype=float)
+    fm = [np.asarray(f, dtype=float) for f in Minit.factor_matrices]
     zero_row = any(not np.any(f[i]) for f in fm for i in range(f.shape[0]))
-    ctx.label(*gen.shape_classes(case["shape"]), "pattern-" + case["pattern"], f"rank{case['rank']}",
-              "w-" + case["wkind"], "guess-" + case["gclass"], "has-all-zero-row" if zero_row else "no-all-zero-row", f"maxiters={k}",
-              f"maxinner={case['maxinneriters']}")
-    if case["holder"] == "sparse":
-        ctx.label("stored-" + case["stored"])
-    if case["alg"] == "pqnr":
-        ctx.label(f"lbfgsMem={case['lbfgsMem']}")
-    ctx.nt = bool(np.any(A == 0) and np.any(A >= 2) and case["rank"] >= 2)
     l0, s0 = _loglik(A, w, fm)
     if case["alg"] in ("pdnr", "pqnr") and zero_row:
         # PDNR / PQNR document that they start from the guess with 1e-8 written into the first column of every
@@ -227,10 +408,68 @@ def _body(ctx, case):
         lp, sp = _loglik(A, w, fp)
         if np.isfinite(l0) and np.isfinite(lp) and lp < l0:
             l0, s0 = lp, sp
-    ctx.label("guess-loglik-finite" if np.isfinite(l0) else "guess-loglik-minus-inf")
-    M1, info1 = _run(ctx, case, A, k, "cp_apr")
+    return l0, s0, zero_row
+
+
+def _same_model(M1, M2, rtol):
+    """same weights and factor matrices up to rtol x the largest entry of each"""
+    def close(a, b):
+        a, b = np.asarray(a, dtype=float), np.asarray(b, dtype=float)
+        if a.shape != b.shape:
+            return False
+        if rtol == 0:
+            return np.array_equal(a, b, equal_nan=True)
+        return bool(np.all(np.abs(a - b) <= rtol * max(1e-300, float(np.max(np.abs(b))) if b.size else 0.0)))
+    return (close(M1.weights, M2.weights) and len(M1.factor_matrices) == len(M2.factor_matrices)
+            and all(close(a, b) for a, b in zip(M1.factor_matrices, M2.factor_matrices)))
+
+
+def _model_info(M):
+    return f"weights {np.asarray(M.weights).tolist()} factor0 {np.asarray(M.factor_matrices[0]).tolist()}"
+
+
+def _common_labels(ctx, case, A, data, used):
+    k = case["maxiters"]
+    ctx.label(*gen.shape_classes(case["shape"]), "pattern-" + case["pattern"], f"rank{case['rank']}",
+              "w-" + case["wkind"], "guess-" + case["gclass"], "guess-prov-" + case.get("gprov", "ctor"), f"maxiters={k}",
+              f"maxinner={case['maxinneriters']}", "data-" + used, "dtype-" + _holder_dtype(data),
+              f"data-scale-{case.get('dscale', 1)}", f"guess-scale-{case.get('gscale', 1.0)}",
+              f"printitn={case.get('printitn', 0)}",
+              f"stoptol={case['stoptol']}")
+    if isinstance(data, ttb.sptensor):
+        ctx.label("stored-" + case["stored"])
+        if not all(type(x) is int for x in data.shape):
+            ctx.label("shape-holds-numpy-ints")
+        if data.vals.size and np.any(data.vals == 0):
+            ctx.label("stores-explicit-zero")
+    elif gen.is_grown(data):
+        ctx.label("data-buffer-not-F-ordered")
+    if case["alg"] == "pqnr":
+        ctx.label(f"lbfgsMem={case['lbfgsMem']}")
+    ctx.nt = bool(np.any(A == 0) and np.any(A >= 2) and case["rank"] >= 2)
+
+
+def _body(ctx, case):
+    A = _true_array(case)
+    k = case["maxiters"]
+    data, used = _build_data(case)
+    init = _build_guess(case)
+    _common_labels(ctx, case, A, data, used)
+    # the same data and guess objects serve every call of the case
+    M1, G1, info1 = _run(ctx, case, data, init, k, "cp_apr")
+    if isinstance(init, ttb.ktensor):
+        ctx.check(_same_guess(_snapshot_guess(G1), _snapshot_guess(init)), "returned-guess-is-the-callers-guess")
+    else:
+        ctx.check(tuple(G1.shape) == tuple(case["shape"]) and G1.ncomponents == case["rank"]
+                  and bool(np.all(G1.weights >= 0)) and all(bool(np.all(f >= 0)) for f in G1.factor_matrices),
+                  "random-guess-nonnegative-of-requested-size")
+    l0, s0, zero_row = _guess_baseline(case, A, G1)
+    ctx.label("has-all-zero-row" if zero_row else "no-all-zero-row",
+              "guess-loglik-finite" if np.isfinite(l0) else "guess-loglik-minus-inf")
     n1 = _check_result(ctx, case, A, M1, info1, k, l0, s0)
-    M2, info2 = _run(ctx, case, A, k + 1, "cp_apr")
+    M2, G2, info2 = _run(ctx, case, data, init, k + 1, "cp_apr")
+    if not isinstance(init, ttb.ktensor):
+        ctx.check(_same_guess(_snapshot_guess(G1), _snapshot_guess(G2)), "random-guess-determined-by-the-seed")
     n2 = _check_result(ctx, case, A, M2, info2, k + 1, l0, s0)
     ctx.label("used-all-iterations" if n1 == k else "stopped-early")
     if n2 == k + 1:
@@ -238,12 +477,121 @@ def _body(ctx, case):
         ctx.check(n1 == k, "one-kkt-entry-per-iteration-performed", f"{n1} entries for {k} iterations")
     else:
         ctx.check(n1 == min(k, n2), "one-kkt-entry-per-iteration-performed", f"{n1} vs longer run {n2} (k={k})")
+    # integer-typed data is the same tensor as its float64 image: same algorithm, same arithmetic, same model
+    if _holder_dtype(data) != "float64":
+        data64, used64 = _build_data(case, "float64")
+        same_layout = used64 == used and (
+            np.array_equal(data64.subs, data.subs) if isinstance(data, ttb.sptensor)
+            else data64.data.flags["F_CONTIGUOUS"] == data.data.flags["F_CONTIGUOUS"])
+        if same_layout:  # (same stored order => the same floating-point operations in the same order)
+            M3, _, info3 = _run(ctx, case, data64, init, k, "cp_apr-float64-image")
+            ctx.check(_same_model(M1, M3, DTYPE_RTOL), "model-independent-of-data-dtype",
+                      f"{_holder_dtype(data)}: {_model_info(M1)} vs float64: {_model_info(M3)}")
+            ctx.check(float(info1["obj"]) == float(info3["obj"]) or abs(float(info1["obj"]) - float(info3["obj"]))
+                      <= 1e-9 * abs(float(info3["obj"])) or (np.isnan(info1["obj"]) and np.isnan(info3["obj"])),
+                      "objective-independent-of-data-dtype", f"{info1['obj']!r} vs {info3['obj']!r}")
+        else:
+            ctx.label("no-float64-image-with-the-same-layout")
 
+
+DTYPE_RTOL = 1e-9
 
 for _alg, (_q, _t) in {"mu": (200, 4000), "pdnr": (150, 3000), "pqnr": (150, 3000)}.items():
     for _holder in ("dense", "sparse"):
         cell(f"C11/{_alg}/{_holder}", strategy=(lambda a, h: lambda tier: _apr_case(tier, a, h))(_alg, _holder),
              quick=_q, thorough=_t, shards=(2, 8))(_body)
+
+
+# --------------------------------------------------------------------------
+# state across calls: the k-th call depends only on its own arguments (and the random stream)
+# --------------------------------------------------------------------------
+
+
+@st.composite
+def _sequence_case(draw, tier):
+    alg = draw(st.sampled_from(["mu", "pdnr", "pdnr", "pqnr"]))
+    c = draw(_apr_case(tier, alg, draw(st.sampled_from(["dense", "sparse", "sparse"]))))
+    c["maxiters"] = min(c["maxiters"], 4)
+    if "precompinds" in c:  # the precomputed index sets are the one structure that could outlive a call
+        c["precompinds"] = draw(st.sampled_from([True, True, True, False]))
+    if alg == "pqnr":  # keep clear of the two open pqnr findings as far as a case can
+        c["lbfgsMem"] = 1
+    c["variant"] = draw(st.sampled_from(["repeat", "printing", "other-call-between", "other-data-between",
+                                         "other-data-between", "other-data-between", "defaults-around-explicit"]))
+    alg2 = draw(st.sampled_from(["mu", "pdnr"]))
+    c["other"] = dict(alg=alg2, **_option_draw(draw, alg2))
+    c["other"]["maxiters"] = min(c["other"]["maxiters"], 3)
+    c["printitn2"] = draw(st.sampled_from([p for p in (0, 1, 2, 3, 5) if p != c["printitn"]]))
+    c["printinneritn2"] = draw(st.sampled_from([0, 1, 3]))
+    return c
+
+
+def _outcome(M, info):
+    return (np.array(M.weights, copy=True), [np.array(f, copy=True) for f in M.factor_matrices], float(info["obj"]),
+            np.ravel(np.asarray(info["kktViolations"], dtype=float)).copy(),
+            np.ravel(np.asarray(info["nInnerIters"], dtype=float)).copy())
+
+
+def _same_outcome(a, b):
+    return (np.array_equal(a[0], b[0], equal_nan=True) and len(a[1]) == len(b[1])
+            and all(x.shape == y.shape and np.array_equal(x, y, equal_nan=True) for x, y in zip(a[1], b[1]))
+            and (a[2] == b[2] or (np.isnan(a[2]) and np.isnan(b[2])))
+            and np.array_equal(a[3], b[3], equal_nan=True) and np.array_equal(a[4], b[4], equal_nan=True))
+
+
+def _outcome_info(a, b):
+    return f"obj {a[2]!r} vs {b[2]!r}; kkt {a[3].tolist()} vs {b[3].tolist()}; weights {a[0].tolist()} vs {b[0].tolist()}"
+
+
+@cell("C11/state/sequence", strategy=_sequence_case, quick=120, thorough=2500, shards=(2, 8))
+def sequence(ctx, case):
+    """sequences of 2..3 calls on the same data and guess objects; the repeated call must reproduce the first
+    bit for bit, whatever was called in between and whatever is printed"""
+    A = _true_array(case)
+    k = case["maxiters"]
+    data, used = _build_data(case)
+    init = _build_guess(case)
+    _common_labels(ctx, case, A, data, used)
+    ctx.label("alg-" + case["alg"], "variant-" + case["variant"], "holder-" + case["holder"])
+    ctx.nt = True
+    v = case["variant"]
+    base = _options(case)
+    if v == "defaults-around-explicit":
+        first = {"printitn": 0}
+    else:
+        first = base
+    M1, _, i1 = _run(ctx, case, data, init, k, "first-call", options=first)
+    r1 = _outcome(M1, i1)
+    if v == "printing":
+        other = dict(base, printitn=case["printitn2"], printinneritn=case["printinneritn2"])
+        M2, _, i2 = _run(ctx, case, data, init, k, "call-with-other-printing", options=other)
+        r2 = _outcome(M2, i2)
+        ctx.check(_same_outcome(r1, r2), "result-independent-of-printing-options", _outcome_info(r1, r2))
+        return
+    if v == "other-call-between":
+        o = case["other"]
+        try:  # (what this call returns is the subject of the algorithm cells)
+            ttb.cp_apr(data, case["rank"], algorithm=o["alg"], init=init, maxiters=o["maxiters"], **_options(o))
+        except Exception:  # noqa: BLE001
+            ctx.label("call-in-between-raised")
+    elif v == "defaults-around-explicit":
+        try:
+            ttb.cp_apr(data, case["rank"], algorithm=case["alg"], init=init, maxiters=k, **base)
+        except Exception:  # noqa: BLE001
+            ctx.label("call-in-between-raised")
+    elif v == "other-data-between":
+        # same call on the mirror image of the data (same shape, same number of stored entries, same values):
+        # whatever the first call left behind must not leak into it - it has to satisfy the property on its own
+        shape = case["shape"]
+        c2 = dict(case, subs=[[n - 1 - i for i, n in zip(sub, shape)] for sub in case["subs"]], dprov="ctor")
+        A2 = _true_array(c2)
+        data2, _ = _build_data(c2)
+        Mb, Gb, ib = _run(ctx, c2, data2, init, k, "call-on-mirrored-data", options=first)
+        lb0, sb0, _ = _guess_baseline(c2, A2, Gb)
+        _check_result(ctx, c2, A2, Mb, ib, k, lb0, sb0)
+    M3, _, i3 = _run(ctx, case, data, init, k, "repeated-call", options=first)
+    r3 = _outcome(M3, i3)
+    ctx.check(_same_outcome(r1, r3), "repeated-call-reproduces-first-call", _outcome_info(r1, r3))
 
 
 def _has_zero_row(case):
@@ -270,6 +618,9 @@ def _guess_nearly_zero_at_a_count(case):
 
 
 PREDICATES = {
+    "alg_is_pqnr": lambda case: case.get("alg") == "pqnr",
+    "sparse_data_stores_explicit_zero": lambda case: case.get("holder") == "sparse" and case.get("dprov") == "explicit-zeros"
+    and len(case.get("zsubs", [])) > 0,
     "pqnr_flat_gradient_row": lambda case: _dense_with_empty_slice(case) or _guess_nearly_zero_at_a_count(case),
     "guess_has_all_zero_row": _has_zero_row,
     "pqnr_mem_ge2_and_inner_ge2": lambda case: case.get("alg") == "pqnr" and case.get("lbfgsMem", 0) >= 2
